@@ -80,6 +80,7 @@ def h_plumbing(h):
     d.parameters = dict(zip(names, p0))
     x = h.reals("x", 3, 0.5, 6.0)
     y = h.reals("y", 3, 0.5, 6.0)
+    x0, y0 = list(x), list(y)          # the values before the fit
     with stubs.optimizer_stubs(h) as log:
         if cons != "none" and weights is not None:
             h.raises(lambda: d.fit(x, y), (NotImplementedError,), "weighted-constrained-fit-not-supported")
@@ -91,7 +92,10 @@ def h_plumbing(h):
     if cons == "none":
         h.check(c["kind"] == "curve_fit", "unconstrained-fit-uses-curve_fit")
         h.check(c["f"] is d, "fits-this-dependence-function")
-        h.check(c["x"] is x and c["y"] is y, "fitted-to-the-given-points")
+        h.close(c["x_at_call"], x0, "fitted-to-the-given-points")
+        h.close(c["y_at_call"], y0, "fitted-to-the-given-points")
+        h.close(list(x), x0, "callers-data-unchanged-by-the-fit")
+        h.close(list(y), y0, "callers-data-unchanged-by-the-fit")
         h.close(list(c["p0"]), p0, "start-values-are-current-parameters-in-order")
         if bounds is None:
             lo, hi = c["bounds"]
@@ -113,7 +117,14 @@ def h_plumbing(h):
         if weights is None:
             h.check(c["sigma"] is None, "no-weights-no-sigma")
         else:
-            h.close(c["sigma"], weights(x, y), "weights-callable-evaluated-on-the-data")
+            # the weights callable evaluated on the (original) data, up to a common positive factor (curve_fit with
+            # relative sigma does not depend on it)
+            w = list(np.ravel(npx.deep_strip(weights(h.arr(x0) if h.sym else np.array(x0), h.arr(y0) if h.sym else np.array(y0)))))
+            sg = c["sigma_at_call"]
+            h.check(sg is not None and len(sg) == len(w), "weights-callable-evaluated-on-the-data")
+            for i in range(1, len(w)):
+                h.close(sg[i] * w[0], sg[0] * w[i], "weights-callable-evaluated-on-the-data", rtol=1e-9)
+            h.check(sg[0] > 0, "weights-positive")
         res = c["popt"]
     else:
         h.check(c["kind"] == "minimize", "constrained-fit-uses-minimize")
